@@ -73,6 +73,16 @@ func coResume(L *LState) int {
 		L.Push(LString(msg))
 		return 2
 	}
+	if th.stack.IsEmpty() {
+		// the body was a Go function and it has yielded: nothing of it is left to run, so it returns
+		// what this resume passes and the coroutine is dead
+		th.kill()
+		L.Remove(1)
+		if !th.wrapped {
+			L.Insert(LTrue, 1)
+		}
+		return L.GetTop()
+	}
 	th.Parent = L
 	L.G.CurrentThread = th
 	if !th.isStarted() {
